@@ -92,6 +92,41 @@ def plan(ctx):
         h = ctx.write('l_%s.c' % c['name'], leafgen.harness_text(c, NA))
         qs.append(vf.Query('leaf/' + c['name'], unit, h, unwind=NA + 3, bounds={'bytes': NA, 'rule': c['cxx']},
                            note='rewind contract + language of %s on symbolic bytes' % c['cxx']))
+    # contrib rules whose language is specified elsewhere (C15, C16): here only the rewind contract, on symbolic bytes
+    CONTRACT = r'''/* generated harness (C02/contract): rewind contract of a byte-level rule, no language specification */
+#define VF_ALPHABET "%(alphabet)s"
+#include "verif.h"
+#include "leaf.h"
+#define NA %(NA)d
+static void harness(void) {
+  lf_setup(NA);
+  u64 o[8], p[8];
+  w_%(name)s_ar(lf_buf, lf_n, lf_start, o);
+  CHECK(o[1] <= lf_n, "cursor inside the input");
+  if (o[0] == 0) CHECK(o[1] == lf_start && o[4] == 1 && o[5] == 1 + lf_start, "local failure under rewind_mode::required leaves byte, line and column where they were");
+  if (o[0] == 1) CHECK(o[1] >= lf_start, "success never moves the cursor backwards");
+  w_%(name)s_nr(lf_buf, lf_n, lf_start, p);
+  CHECK(p[0] == o[0] && p[1] == o[1], "result and cursor independent of the apply mode");
+  w_%(name)s_ao(lf_buf, lf_n, lf_start, p);
+  CHECK(p[0] == o[0] && (o[0] == 0 || p[1] == o[1]), "result (and consumption on success) independent of the rewind mode");
+  OBS(o[0]); OBS(o[1]);
+  REACH(o[0] == 1 && o[1] > lf_start, "rule matched and consumed");
+  REACH(o[0] == 0 && lf_start < lf_n, "rule failed with input left");
+}
+'''
+    contract = [
+        {'name': 'raw_string', 'cxx': "raw_string< '[', '=', ']' >", 'inc': 'tao/pegtl/contrib/raw_string.hpp', 'alphabet': '[[=]]\\na', 'NA': 5},
+        {'name': 'raw_string_content', 'cxx': "raw_string< '[', '=', ']', not_one< 'x' > >", 'inc': 'tao/pegtl/contrib/raw_string.hpp', 'alphabet': '[[=]]xa', 'NA': 5},
+        {'name': 'unsigned_rule', 'cxx': 'unsigned_rule', 'inc': 'tao/pegtl/contrib/integer.hpp', 'alphabet': '0019a', 'NA': NA},
+        {'name': 'signed_rule', 'cxx': 'signed_rule', 'inc': 'tao/pegtl/contrib/integer.hpp', 'alphabet': '+-019a', 'NA': NA},
+        {'name': 'maximum_rule_u8', 'cxx': 'maximum_rule< std::uint8_t >', 'inc': 'tao/pegtl/contrib/integer.hpp', 'alphabet': '012569', 'NA': NA},
+        {'name': 'maximum_rule_u16_999', 'cxx': 'maximum_rule< std::uint16_t, 999 >', 'inc': 'tao/pegtl/contrib/integer.hpp', 'alphabet': '0199', 'NA': NA},
+    ]
+    for c in contract:
+        unit = ctx.unit('c02c_' + c['name'], text=leafgen.wrapper_text([c], includes=[c['inc']]))
+        h = ctx.write('c_%s.c' % c['name'], CONTRACT % c)
+        qs.append(vf.Query('contract/' + c['name'], unit, h, unwind=c['NA'] + 3, mem_gb=3, bounds={'bytes': c['NA'], 'rule': c['cxx']},
+                           note='rewind contract of %s on symbolic bytes' % c['cxx']))
     # http chunk helper rules (state-taking match functions)
     hu = ctx.unit('c02_http', cpp=os.path.join(vf.VERIF, 'harness', 'c02_http.cpp'))
     # http::chunk as a whole (size, ext, CRLF, data, CRLF) gave no verdict within 800 s / 10 GB at 4 bytes: only its two hand-written match functions are claimed
